@@ -11,6 +11,7 @@
 //   B <op 0=Add 1=Subtract 2=Intersect> i j
 //   BB <op> k i1 .. ik         BatchBoolean
 //   TR i tx ty | RO i deg | SC i sx sy | MI i ax ay | TF i m00 m01 m10 m11 tx ty
+//   ST i tol | SI i tol        SetTolerance / Simplify (history that inflates tolerance_)
 //   W i kind p1 p2             Warp with one of the built-in functions below
 // stdout, per register:
 //   O <id> <reg> <epsbits> <areabits> <nc> <n1> xbits ybits ...
@@ -174,6 +175,14 @@ int main() {
         const long i = ri();
         const double a = rd(), b = rd(), c = rd(), d = rd(), e = rd(), f = rd();
         out = R(i).Transform(mat2x3({a, b}, {c, d}, {e, f}));
+      } else if (tok == "ST") {
+        const long i = ri();
+        const double t = rd();
+        out = R(i).SetTolerance(t);
+      } else if (tok == "SI") {
+        const long i = ri();
+        const double t = rd();
+        out = R(i).Simplify(t);
       } else if (tok == "W") {
         const long i = ri(), kind = ri();
         const double p1 = rd(), p2 = rd();
